@@ -367,6 +367,10 @@ func shouldRespondDelta(con *Connection, request *discovery.DeltaDiscoveryReques
 		deltaLog.Warnf("ADS:%s: ACK ERROR %s %s:%s", stype, con.ID(), errCode.String(), request.ErrorDetail.GetMessage())
 		xds.IncrementXDSRejects(request.TypeUrl, con.proxy.ID, errCode.String())
 		con.proxy.UpdateWatchedResource(request.TypeUrl, func(wr *model.WatchedResource) *model.WatchedResource {
+			if wr == nil {
+				// NACK for a type that is not (or no longer) watched on this stream; nothing to record.
+				return nil
+			}
 			wr.LastError = request.ErrorDetail.GetMessage()
 			return wr
 		})
